@@ -1,4 +1,4 @@
-"""C20 — update notifications: only committed changes (O2); bus delivery (O1) when built."""
+"""C20 — update notifications: bus delivery complete/ordered/once (O1), only committed changes (O2)."""
 
 
 def txn_jobs(tier):
@@ -8,10 +8,21 @@ def txn_jobs(tier):
     ]
 
 
+def bus_jobs(tier):
+    js = []
+    for subs, pubs in (((1, 2), (2, 2)) if tier == "quick" else ((1, 3), (2, 2), (2, 3))):
+        js.append({"id": f"O1.bus.subs{subs}.pubs{pubs}", "func": "VerifH_C20_Bus", "conf": {"subs": subs, "pubs": pubs}, "map_order": True,
+                   "_obligation": "O1", "_covers": ["handled"], "unwind": 200, "_blocked_ok": False})
+    js.append({"id": "twin.bus", "func": "VerifH_C20_BusReach", "conf": {}, "_obligation": "vacuity", "_expect": "twin", "_covers": ["end"]})
+    return js
+
+
 PROPERTY = {
     "id": "C20",
-    "suites": [{"name": "datastore", "pkg": "internal/datastore", "files": ["zz_verif_txn.go"], "common": ["intrinsics", "kvmodel"], "jobs": txn_jobs}],
-    "bounds": {"callbacks": "<= 2 each of success/error/discard", "commit outcome": "symbolic"},
+    "suites": [{"name": "bus", "pkg": "event", "files": ["zz_verif_c20.go"], "common": ["intrinsics"], "jobs": bus_jobs, "unwind": 200,
+                "witnesses": {"quick": 16, "thorough": 48}},
+               {"name": "datastore", "pkg": "internal/datastore", "files": ["zz_verif_txn.go"], "common": ["intrinsics", "kvmodel"], "jobs": txn_jobs}],
+    "bounds": {"bus": "<=2 subscribers with any subset of {update, merge, pubsub, *} (wildcard listed first or last), <=3 publishes of symbolic names, unsubscribe at any position or never, every rotation of every map iteration; event buffers larger than the number of messages", "callbacks": "<= 2 each of success/error/discard", "commit outcome": "symbolic"},
     "assumptions": ["publication of update events is registered through Txn.OnSuccess (collection.save / applyDelete); checked here is that such callbacks run iff the store commit succeeded, once, in order"],
     "outside_claim": ["that save/applyDelete register exactly one publication per new composite commit (client.Document)", "GraphQL subscriptions", "cross-goroutine ordering"],
 }
